@@ -1,10 +1,111 @@
 import TinsModel.Crypto.Wpa2
 import TinsModel.Crypto.Spec
-/- Property C09 — theorems (statements only here; helper lemmas live in TinsModel/Crypto/*). -/
+import TinsModel.Crypto.LemmasWep
+/-
+  Property C09 — WEP / TKIP / CCMP decryption recovers exactly the plaintext, safely.
+  Theorems only (helper lemmas live in TinsModel/Crypto/Lemmas*.lean).
+
+  Model  : TinsModel/Crypto/{Crc,RC4,Wep,Tkip,Ccmp,Wpa2,Frame}.lean  (code-shaped, src/crypto.cpp)
+  Spec   : TinsModel/Crypto/Spec.lean  (encapsulation / decapsulation written from IEEE 802.11)
+-/
 namespace Tins.Props.C09
 open Tins.Crypto
 
+/-! ## Primitives -/
+
+/-- `Utils::crc32` (nibble table, complemented register) is the IEEE 802.3 CRC-32, for every byte string. -/
+theorem crc32_is_ieee (d : Bytes) : crc32 d = crc32Spec d := crc32_eq_spec d
+
+example : crc32 [0x31, 0x32, 0x33, 0x34, 0x35, 0x36, 0x37, 0x38, 0x39] = 0xCBF43926#32 := by decide
+
+/-- the RC4 of src/crypto.cpp (wrapping key iterator, in-place XOR) is XOR with the textbook RC4 key stream,
+    for every non-empty key and every data. -/
+theorem rc4_is_textbook (key d : Bytes) (hkey : key ≠ []) :
+    rc4 key d = xorBytes (Spec.rc4Stream key d.length) d :=
+  rc4_eq_spec key d (List.length_pos_iff.mpr hkey)
+
 /-- the RC4 stream XOR is an involution (the core of the WEP / TKIP round trip) -/
 theorem rc4_involutive (key d : Bytes) : rc4 key (rc4 key d) = d := Tins.Crypto.rc4_involutive key d
+
+/-! ## WEP -/
+
+/-- **Refinement.** For every payload, password and inner parser, `WEPDecrypter::decrypt(RawPDU&, password)`
+    returns the LLC/SNAP parse of the specification's decapsulation — null exactly when the body is at most
+    8 bytes long, the ICV does not verify or the plaintext is not a well-formed LLC/SNAP payload. -/
+theorem wep_refines_spec (ip : InnerParser) (pload pw : Bytes) :
+    ∃ p', wepDecryptRaw ip pload pw =
+      .ok (if 8 < pload.length then snapResult ip (Spec.wepDecap pw pload) else none, p') := by
+  by_cases hn : 8 < pload.length
+  · exact ⟨_, by rw [wepDecryptRaw_refines ip pload pw hn, if_pos hn]⟩
+  · exact ⟨_, by rw [wepDecryptRaw_short ip pload pw (by omega), if_neg hn]⟩
+
+/-- **Round trip (specification level).** Decapsulation inverts encapsulation: all keys, IVs, key ids, data. -/
+theorem wep_spec_roundtrip (key iv : Bytes) (kid : UInt8) (m : Bytes) (hiv : iv.length = 3) :
+    Spec.wepDecap key (Spec.wepEncap key iv kid m) = some m := spec_wep_roundtrip key iv kid m hiv
+
+/-- **Round trip.** A frame whose body is the reference WEP encapsulation (any key, any 3-byte IV, any key-id
+    byte, any LLC/SNAP payload `m` that parses to `s`) is decrypted to exactly `s` and marked unprotected, for
+    every header, once the key is installed under the address `WEPDecrypter` looks up. -/
+theorem wep_roundtrip (ip : InnerParser) (pws : WepPasswords) (h : Hdr) (pw iv : Bytes) (kid : UInt8) (m : Bytes)
+    (s : Snap) (hiv : iv.length = 3) (hkey : lookup pws (wepLookupAddr h) = some pw) (hs : snapParse ip m = .ok s) :
+    wepDecrypt ip pws ⟨h, .raw (Spec.wepEncap pw iv kid m)⟩ = .ok (true, ⟨h.clearWep, .snap s⟩) ∧
+    h.clearWep.wep = false := by
+  refine ⟨?_, clearWep_wep h⟩
+  have hm : 8 ≤ m.length := by
+    unfold snapParse at hs
+    split at hs
+    · simp
+    · cases hs
+  rw [wepDecrypt_eq]
+  simp only [Inner.findRaw, hkey]
+  have hlen : 8 < (Spec.wepEncap pw iv kid m).length := by
+    unfold Spec.wepEncap; simp [hiv]; omega
+  rw [if_pos hlen, spec_wep_roundtrip pw iv kid m hiv]
+  simp [snapResult, hs]
+
+/-- **Reject.** If `WEPDecrypter::decrypt` reports a frame as decrypted then the ICV of its body verifies under
+    the installed key (the decapsulation succeeds) and the new payload is the parse of exactly that plaintext. -/
+theorem wep_reject (ip : InnerParser) (pws : WepPasswords) (fr fr' : Frame)
+    (h : wepDecrypt ip pws fr = .ok (true, fr')) :
+    ∃ pload pw m s, fr.inner.findRaw = some pload ∧ lookup pws (wepLookupAddr fr.hdr) = some pw ∧
+      Spec.wepDecap pw pload = some m ∧ snapParse ip m = .ok s ∧ fr' = ⟨fr.hdr.clearWep, .snap s⟩ := by
+  rw [wepDecrypt_eq] at h
+  cases hraw : fr.inner.findRaw with
+  | none => simp [hraw] at h
+  | some pload =>
+    cases hk : lookup pws (wepLookupAddr fr.hdr) with
+    | none => simp [hraw, hk] at h
+    | some pw =>
+      simp only [hraw, hk] at h
+      by_cases hn : 8 < pload.length
+      · rw [if_pos hn] at h
+        cases hd : Spec.wepDecap pw pload with
+        | none => simp [hd, snapResult] at h
+        | some m =>
+          cases hs : snapParse ip m with
+          | ok s =>
+            simp [hd, snapResult, hs] at h
+            exact ⟨pload, pw, m, s, rfl, rfl, hd, hs, h.symm⟩
+          | throw e => simp [hd, snapResult, hs] at h
+          | fault a b c => simp [hd, snapResult, hs] at h
+      · rw [if_neg hn] at h; simp at h
+
+/-- **No key, no decryption.** Without a password for the frame's address the frame is left untouched. -/
+theorem wep_no_key (ip : InnerParser) (pws : WepPasswords) (fr : Frame)
+    (h : lookup pws (wepLookupAddr fr.hdr) = none) : wepDecrypt ip pws fr = .ok (false, fr) := by
+  rw [wepDecrypt_eq]
+  cases fr.inner.findRaw <;> simp [h]
+
+/-- **Safety.** For every frame, every password table and every inner parser, `WEPDecrypter::decrypt` performs no
+    out-of-bounds access and throws nothing: it returns. -/
+theorem wep_decrypt_noFault (ip : InnerParser) (pws : WepPasswords) (fr : Frame) :
+    ∃ r fr', wepDecrypt ip pws fr = .ok (r, fr') := ⟨_, _, wepDecrypt_eq ip pws fr⟩
+
+/-- non-vacuity: the hypotheses of `wep_roundtrip` are satisfiable (a to-DS frame, 5-byte key under addr1) -/
+example : ∃ (h : Hdr) (pws : WepPasswords) (pw m : Bytes) (s : Snap),
+    lookup pws (wepLookupAddr h) = some pw ∧ snapParse (fun _ r => .ok (.raw r)) m = .ok s ∧ s.inner = .raw [1, 2] :=
+  ⟨{ fc0 := 0x08, fc1 := 0x41, addr1 := [1, 1, 1, 1, 1, 1], addr2 := [2, 2, 2, 2, 2, 2], addr3 := [3, 3, 3, 3, 3, 3],
+     sc0 := 0, sc1 := 0 }, [([1, 1, 1, 1, 1, 1], [9, 9, 9, 9, 9])], [9, 9, 9, 9, 9],
+   [0xaa, 0xaa, 3, 0, 0, 0, 0x88, 0xb5, 1, 2], ⟨0xaa, 0xaa, 3, 0, 0x88b5, .raw [1, 2]⟩, by decide, by rfl, rfl⟩
 
 end Tins.Props.C09
